@@ -5,6 +5,7 @@ package props
 import (
 	"fmt"
 	"go/ast"
+	"go/token"
 	"go/types"
 	"os"
 	"sort"
@@ -521,6 +522,7 @@ func iterEndBounds(c *Ctx, rule string, fs []*ssa.Function, report bool) (int, i
 // return occurrence (possibly inside a helper whose result the function hands on) that produces it.
 type retAlt struct {
 	E    *ir.Expr
+	V    ssa.Value // the value in the terms of Pos.Ctx's function
 	Pos  ir.FPos
 	root *ir.FCtx
 	w    *ir.World
@@ -539,8 +541,17 @@ func returnAlts(c *Ctx, f *ssa.Function, idx int) []retAlt {
 }
 
 func altsOf(c *Ctx, f *ssa.Function, idx int, at0 ssa.Instruction, val ssa.Value) []retAlt {
+	return altsOfRoot(c, c.W.FlatRoot(f), idx, at0, val)
+}
+
+// altsOfRoot: the alternatives on a given flat root (e.g. a library callback's body with its captures bound).
+func altsOfRoot(c *Ctx, root *ir.FCtx, idx int, at0 ssa.Instruction, val ssa.Value) []retAlt {
+	return altsAtCtx(c, root, root, idx, at0, val)
+}
+
+// altsAtCtx: the alternatives of val, a value of the function of context start (a context of root's flat view).
+func altsAtCtx(c *Ctx, root, start *ir.FCtx, idx int, at0 ssa.Instruction, val ssa.Value) []retAlt {
 	w := c.W
-	root := w.FlatRoot(f)
 	rets := map[*ir.FCtx][]*ssa.Return{}
 	seen := map[[2]any]bool{}
 	w.FlatWalk(root, nil, nil, func(p ir.FPos) bool {
@@ -580,14 +591,51 @@ func altsOf(c *Ctx, f *ssa.Function, idx int, at0 ssa.Instruction, val ssa.Value
 				return
 			}
 		}
-		e := w.ExprOf(v)
-		if ctx != root {
-			e = ctx.Apply(e)
+		// a field of the record an expanded helper hands back: what each of the helper's returns puts in that field
+		var fbase ssa.Value
+		fidx := -1
+		switch y := v.(type) {
+		case *ssa.Field:
+			fbase, fidx = y.X, y.Field
+		case *ssa.UnOp:
+			if fa, ok := y.X.(*ssa.FieldAddr); ok && y.Op == token.MUL {
+				if al, ok := fa.X.(*ssa.Alloc); ok {
+					if src := ir.RecordSource(al, fa.Field); src != nil {
+						fbase, fidx = src, fa.Field
+					}
+				}
+			}
 		}
-		out = append(out, retAlt{E: e, Pos: ir.FPos{Ctx: ctx, In: at}, root: root, w: w})
+		if fbase != nil && depth < 6 {
+			var c2 *ssa.Call
+			j2 := 0
+			switch y := fbase.(type) {
+			case *ssa.Call:
+				c2 = y
+			case *ssa.Extract:
+				if cl, ok := y.Tuple.(*ssa.Call); ok {
+					c2, j2 = cl, y.Index
+				}
+			}
+			if c2 != nil {
+				if kid := ctx.Child(c2); kid != nil && len(rets[kid]) > 0 {
+					name := ir.FieldName(fbase.Type(), fidx)
+					for _, r2 := range rets[kid] {
+						if j2 >= len(r2.Results) {
+							continue
+						}
+						e := ir.FieldOf(kid.Apply(w.ExprOf(r2.Results[j2])), name)
+						out = append(out, retAlt{E: e, Pos: ir.FPos{Ctx: kid, In: r2}, root: root, w: w})
+					}
+					return
+				}
+			}
+		}
+		e := ctx.Apply(w.ExprOf(v))
+		out = append(out, retAlt{E: e, V: v, Pos: ir.FPos{Ctx: ctx, In: at}, root: root, w: w})
 	}
 	if val != nil {
-		expandV(root, at0, val, 0)
+		expandV(start, at0, val, 0)
 		return out
 	}
 	for _, rt := range rets[root] {
@@ -607,3 +655,125 @@ var theWorld *ir.World
 
 // SetWorld installs the program under analysis for context-free matchers.
 func SetWorld(w *ir.World) { theWorld = w }
+
+// lostUpdates is rule A3.lost-update for the functions of module m on transaction, block and genesis paths: no update is
+// made to a local copy of a record and then dropped (the copy never read again) — the slip behind `for _, s := range xs
+// { s.n += d }` or `s := xs[i]; s.n += d`, which silently loses an accumulation. Returns the number of field stores into
+// local record copies that were judged.
+func lostUpdates(c *Ctx, m string) int {
+	w, r := c.W, c.R
+	scope := consensusScope(c, []string{"MSG", "ANTE", "BEGIN", "END", "INITGEN", "EXPORTGEN"})
+	var fs []*ssa.Function
+	for f := range scope {
+		if !w.IsGenerated(f) && !ir.IsFixture(f) && ir.ModuleOf(f) == m {
+			fs = append(fs, f)
+		}
+	}
+	sortFuncs(fs)
+	bad := 0
+	for _, f := range fs {
+		ord := map[string]int{}
+		for _, lu := range ir.LostUpdates(f) {
+			bad++
+			ord[lu.Field]++
+			r.Bad("A3.lost-update", fmt.Sprintf("%s|%s.%s#%d", fn(f), lu.Alloc.Comment, lu.Field, ord[lu.Field]), pos(c, lu.Store),
+				"an update made to a local copy of a record is read again or written back (otherwise the accumulation or change is silently lost)",
+				"field "+lu.Field+" of the local copy "+lu.Alloc.Comment+" is assigned and the copy is never read afterwards")
+		}
+	}
+	if bad == 0 {
+		r.OK("A3.lost-update", m+"|none", "", fmt.Sprintf("no dropped update to a local record copy in the %d functions of %s on transaction, block and genesis paths", len(fs), m))
+	}
+	return len(fs)
+}
+
+// lostUpdateControl: the rule finds the two dropped updates of fixtures/c04 and neither of its two correct forms.
+func lostUpdateControl(c *Ctx) {
+	pos, neg := 0, 0
+	for _, f := range c.W.Funcs {
+		if !ir.IsFixture(f) || !strings.Contains(fn(f), "fixtures/c04") {
+			continue
+		}
+		n := len(ir.LostUpdates(f))
+		switch f.Name() {
+		case "AddsToRangeCopy", "AddsToIndexedCopy":
+			pos += n
+		default:
+			neg += n
+		}
+	}
+	c.R.Control("A3.lost-update", "fixtures/c04", pos == 2 && neg == 0)
+}
+
+// isMsgFieldAll: every alternative of e is the message field, or an empty value produced where that very message field is
+// known to be empty (an optional field left unset by an early return `if len(msg.F) == 0`): the value equals msg.F on
+// every path.
+func isMsgFieldAll(e *ir.Expr, field string) bool {
+	if e == nil {
+		return false
+	}
+	for _, a := range e.Alts() {
+		if isMsgField(a, field) {
+			continue
+		}
+		ok := false
+		if a.Op == "zero" || a.Op == "const" {
+			for _, q := range a.Eq {
+				if isMsgField(q, field) {
+					ok = true
+				}
+			}
+		}
+		if !ok {
+			return false
+		}
+	}
+	return true
+}
+
+// valueAtSite: what v (a value used by instruction site of f) can be when site executes, in f's terms — the
+// alternatives the helpers on the way can hand back (valueAlts), minus those that contradict how the flat view reaches
+// site: `req, ok := build(tx); if !ok { return }; use(req.payer)` never sees the empty record build returns with ok=false.
+func valueAtSite(c *Ctx, f *ssa.Function, site ssa.Instruction, v ssa.Value) *ir.Expr {
+	w := c.W
+	root := w.FlatRoot(f)
+	alts := altsOfRoot(c, root, 0, site, v)
+	var occ []ir.FPos
+	w.FlatWalk(root, nil, nil, func(p ir.FPos) bool {
+		if p.Ctx == root && p.In == site {
+			occ = append(occ, p)
+		}
+		return true
+	})
+	var keep []*ir.Expr
+	for _, a := range alts {
+		rt, isRet := a.Pos.In.(*ssa.Return)
+		if a.Pos.Ctx == root || !isRet || len(occ) == 0 {
+			keep = append(keep, a.E)
+			continue
+		}
+		for _, p := range occ {
+			if p.ConsistentReturn(w, a.Pos.Ctx, rt) {
+				keep = append(keep, a.E)
+				break
+			}
+		}
+	}
+	if len(keep) == 0 {
+		return w.ExprOf(v)
+	}
+	return ir.MkPhi(keep)
+}
+
+// sameNonZeroAlts: a and b have the same alternatives once empty values are left aside (the record a helper hands back
+// empty together with ok=false, which a caller that tested ok never uses).
+func sameNonZeroAlts(a, b *ir.Expr) bool {
+	sa, sb := map[string]bool{}, map[string]bool{}
+	for _, x := range nonZeroAlts(a) {
+		sa[x.String()] = true
+	}
+	for _, x := range nonZeroAlts(b) {
+		sb[x.String()] = true
+	}
+	return len(sa) > 0 && sameSet(sa, sb)
+}
